@@ -94,6 +94,9 @@ def handle : List String → String
         " ; ".intercalate ((if a.isEmpty then [] else [showThread g2 0]) ++ (if b.isEmpty then [] else [showThread g2 1]))
       | _, _, _ => "!bad-arg"
     | _ => "!bad-arg"
+  | ["c07", "placement", what] =>
+    -- what the property asks of the live code (the generated table is audited separately by the [table] theorems)
+    if what = "tracker" || what = "ctx" || what = "ctxfresh" then "isolated" else "!bad-arg"
   | _ => "!bad-op"
 
 end Pycel.Drv.C07
